@@ -1191,6 +1191,11 @@ func (s *c11fill) randomOps(rng *Rng, cfg c10cfg) {
 	bidders := []string{"b1", "b2", "b3", "b4"}
 	nops := 5 + rng.Intn(14)
 	var lastFilled []string
+	// emergency shutdown of the app in some sequences (the iterator's shutdown branch; TriggerEsm for vault-initiated auctions)
+	esmAt := -1
+	if rng.Chance(12) {
+		esmAt = rng.Intn(nops)
+	}
 	if a, open := s.auction(); open && rng.Chance(30) {
 		// two to four bidders wait at ONE premium (some of them below the remaining debt, so that the loop goes on after them)
 		prem := c11bucket(a) + 1 + int64(rng.Intn(3))
@@ -1215,6 +1220,10 @@ func (s *c11fill) randomOps(rng *Rng, cfg c10cfg) {
 		}
 	}
 	for o := 0; o < nops; o++ {
+		if o == esmAt {
+			s.esm(true)
+			s.tr.Count("fill:esm-on:" + s.kind)
+		}
 		a, open := s.auction()
 		// after an auto-fill: the debited depositors come back for the rest (cancel / withdraw right after the begin-block)
 		if len(lastFilled) > 0 && rng.Chance(70) {
@@ -1436,6 +1445,19 @@ func TestC11Fill(t *testing.T) {
 		s.ftick(2100 * time.Second)
 		s.fcancel("b1", 1)
 		tr.Count("corpus:fill-clipped")
+	}
+	// ---- corpus 5: emergency shutdown, vault-initiated auction past its window: TriggerEsm forwards the 100 000 b1 paid, and then
+	// forwards 100 000 again every block — out of b4's limit deposit, which b4 can then no longer cancel (D35)
+	if s := c11fillStart(t, f, tr, base, "0", "0"); s != nil {
+		s.fbid("b1", sdk.NewInt(100000))
+		s.fdep("b4", 30, sdk.NewInt(250000))
+		s.esm(true)
+		s.ftick(61 * time.Minute)
+		s.ftick(1 * time.Minute)
+		s.ftick(1 * time.Minute)
+		s.ftick(1 * time.Minute)
+		s.fcancel("b4", 30)
+		tr.Count("corpus:fill-esm-trigger")
 	}
 	n := scale(260, 6000)
 	for i := 0; i < n; i++ {
